@@ -169,6 +169,19 @@ pub fn run(tier: Tier) -> i32 {
                             RawOp::ResetSize(None),
                             RawOp::Dec(Hex(in3)),
                         ];
+                        // the same history on a decoder that was CONSTRUCTED for marker-terminated streams
+                        {
+                            let mut in_a = eb_sized.payload.clone();
+                            in_a.extend_from_slice(&[0xAA, 0x00]);
+                            let ops2 = vec![RawOp::Dec(Hex(eb_marker.payload.clone())), RawOp::ResetSize(Some(nb)), RawOp::Dec(Hex(in_a)), RawOp::ResetSize(None), RawOp::Dec(Hex(eb_marker.payload.clone()))];
+                            let case2 = Case::RawLzma { lc, lp, pb, dict: 4096, size: None, memlimit: None, ops: ops2 };
+                            let o2 = run_case(&case2);
+                            ctx.eval(1);
+                            let ok2 = o2.ops.len() == 5 && o2.ops[0].v.is_ok() && o2.ops[2].v.is_ok() && o2.ops[2].n == Some(eb_sized.payload.len() as u64) && o2.ops[2].sink_len == eb_sized.expect.len() && o2.ops[4].v.is_ok() && o2.ops[4].n == Some(eb_marker.payload.len() as u64);
+                            if !ok2 {
+                                ctx.violation(&case2, &format!("raw LzmaDecoder constructed with unknown size: marker member, reset(Some(Some({}))), sized member followed by 2 other bytes (stops after {} bytes), reset(Some(None)), marker member", nb, eb_sized.payload.len()), &o2, None);
+                            }
+                        }
                         let case = Case::RawLzma { lc, lp, pb, dict: 4096, size: Some(na), memlimit: None, ops };
                         let o = run_case(&case);
                         n_cases += 1;
@@ -213,6 +226,32 @@ pub fn run(tier: Tier) -> i32 {
                         let blk = xz::Block { payload: w.bytes.clone(), plain: w.expect.clone(), ..Default::default() };
                         let f = xz::XzFile { check_id: check, blocks: vec![blk; nb], ..Default::default() };
                         items.push((Fmt::Xz, xz::build(&f).0, format!("xz check {} blocks {}", check, nb)));
+                    }
+                }
+            }
+            // marker-terminated stream whose header carries a real size, decoded with ReadHeaderButUseProvided(None):
+            // no size is in effect, so the marker is the end and nothing may follow it
+            let hp_none = Opts { size: SizeOpt::HeaderProvided(None), ..Opts::default() };
+            for p in &progs {
+                let mut q = p.clone();
+                q.push(Sym::E);
+                let e = enc::encode(3, 0, 2, u64::MAX, &q);
+                let file = enc::lzma_file(3, 0, 2, 4096, Some(e.expect.len() as u64), &e.payload);
+                let c0 = Case::Dec { fmt: Fmt::Lzma, opts: hp_none, input: Hex(file.clone()), rd: Rd::default(), sk: Sk::default() };
+                let o0 = run_case(&c0);
+                ctx.eval(1);
+                if !(o0.v.is_ok() && o0.out.0 == e.expect && o0.consumed == file.len()) {
+                    ctx.violation(&c0, &format!("marker-terminated [{}] with a real size in the header under ReadHeaderButUseProvided(None): Ok and the reader left after the marker ({} bytes)", prog_str(&q), file.len()), &o0, None);
+                }
+                for tr in &trs {
+                    let mut input = file.clone();
+                    input.extend_from_slice(tr);
+                    let case = Case::Dec { fmt: Fmt::Lzma, opts: hp_none, input: Hex(input), rd: Rd::default(), sk: Sk::default() };
+                    let o = run_case(&case);
+                    ctx.eval(1);
+                    ctx.nontriv(1);
+                    if !o.v.is_err() {
+                        ctx.violation(&case, &format!("marker-terminated [{}] under ReadHeaderButUseProvided(None) + {} trailing byte(s): Err", prog_str(&q), tr.len()), &o, None);
                     }
                 }
             }
